@@ -105,6 +105,25 @@ theorem variable_skip_exact (a : Annotation) (internal : Option (List (Rule VarI
   · exact goodRules_varTermRules es hn.1 nterm hn.2
   · exact goodRules_varTermRules es hc.1 cterm hc.2
 
+/-- What the enumeration `specForms` contains, as a set comprehension (a statement about the specification alone, so that
+it can be read without trusting the enumeration code): `x` is listed iff there are a terminal variant `(n, c)`, a sub-list
+`S` of the eligible sites of that variant — positions `0 ≤ i < len`, unmodified, with a non-empty list `offered i` — with
+`|S| ≤ max_mods`, and a choice `T` of one offered group per site of `S`, such that `x` is the variant with exactly the
+entries `T` added to its dict. -/
+theorem mem_specForms_iff (a : Annotation) (internal nt ct : List (Rule (List Group))) (maxMods : Int) (x : Annotation) :
+    x ∈ specForms a internal nt ct maxMods ↔
+      ∃ n ∈ nVariants a nt, ∃ c ∈ cVariants a ct, ∃ S T,
+        S.Sublist (eligible (withTerm a n c) internal) ∧ (S.length : Int) ≤ maxMods ∧
+        List.Forall₂ (fun t s => t.1 = s.1 ∧ t.2 ∈ s.2) T S ∧ x = withChoice (withTerm a n c) T := by
+  unfold specForms
+  simp only [List.mem_flatMap, mem_internalForms]
+
+/-- … and which sites are eligible. -/
+theorem mem_eligible_iff (a : Annotation) (rules : List (Rule (List Group))) (i : Int) (gs : List Group) :
+    (i, gs) ∈ eligible a rules ↔
+      0 ≤ i ∧ i < (a.seq.length : Int) ∧ modsAt a i = none ∧ gs = offered rules i ∧ gs ≠ [] :=
+  mem_eligible a rules i gs
+
 /-- C13 (variable, mode skip), "exactly once": when the groups offered at each residue are pairwise different, and so
 are the groups offered to the N-terminus and those offered to the C-terminus, no form is returned twice. -/
 theorem variable_skip_nodup (a : Annotation) (internal : Option (List (Rule VarIn))) (maxMods : Int)
@@ -150,17 +169,23 @@ theorem variable_changes_confined (a : Annotation) (internal : Option (List (Rul
   · rw [hf.nterm]; exact h1
   · rw [hf.cterm]; exact h2
 
-/-- C13 (variable, every mode), "no form twice": if at every matched residue the states it can take (`newVal` for each
-offered group, and the state it has) are pairwise different (`SiteOK`), and the terminal variants that are expanded are
-pairwise different in their terminal mods, then no form is returned twice. -/
+/-- C13 (variable, every mode), "no form twice": if at every matched residue the states it can take (the one it has, and
+`newVal` for each offered group) are pairwise different (`SiteOK`), and the groups offered to the N-terminus are pairwise
+different, and so are those offered to the C-terminus, then no form is returned twice.
+(A terminal group that would leave the terminus as it is – as a multiset of mods – is dropped by the code itself.) -/
 theorem variable_no_form_twice (a : Annotation) (internal : Option (List (Rule VarIn))) (maxMods : Int)
-    (nterm cterm : TermIn VarIn) (mode : Mode) (es : List Int) (hi : SitesOK (internal.getD []))
+    (nterm cterm : TermIn VarIn) (mode : Mode) (es : List Int)
+    (hi : SitesOK (internal.getD [])) (hn : TermSitesOK es nterm) (hc : TermSitesOK es cterm)
     (hok : ∀ j : Int, offered (varInternalRules internal) j ≠ [] →
       SiteOK mode (modsAt a j) (offered (varInternalRules internal) j))
-    (hterm : ((variantBases mode a (varTermRules es nterm) (varTermRules es cterm)).map tkey).Nodup) :
+    (hdn : (termOffered (varTermRules es nterm) 0).Nodup)
+    (hdc : (termOffered (varTermRules es cterm) ((a.seq.length : Int) - 1)).Nodup) :
     (applyVariable a internal maxMods nterm cterm mode es).Nodup := by
   rw [applyVariable_eq]
-  exact applyVariableCore_nodup a _ _ _ maxMods mode (fun r hr => (goodRules_varRules _ hi r hr).1) hok hterm
+  refine applyVariableCore_nodup a _ _ _ maxMods mode (fun r hr => (goodRules_varRules _ hi r hr).1) hok ?_
+  exact variantBases_keys_nodup mode a _ _
+    (termVals_nodup mode a.nterm _ 0 (goodRules_varTermRules es hn.1 nterm hn.2) hdn)
+    (termVals_nodup mode a.cterm _ _ (goodRules_varTermRules es hc.1 cterm hc.2) hdc)
 
 /-- `SiteOK` in mode append: the offered groups are pairwise different (they are never empty after
 `remove_empty_list_of_list_of_mods`). -/
@@ -181,6 +206,40 @@ theorem siteOK_overwrite_of_nodup (a : Annotation) (internal : Option (List (Rul
     (hne : ∀ o, modsAt a j = some o → o ∉ offered (varInternalRules internal) j) :
     SiteOK .overwrite (modsAt a j) (offered (varInternalRules internal) j) :=
   siteOK_overwrite _ _ hd hne
+
+/-- C13 (variable, mode append), no form twice — with the hypotheses spelled out: pairwise different offered groups at
+every residue and at each terminus. -/
+theorem variable_append_no_form_twice (a : Annotation) (internal : Option (List (Rule VarIn))) (maxMods : Int)
+    (nterm cterm : TermIn VarIn) (es : List Int)
+    (hi : SitesOK (internal.getD [])) (hn : TermSitesOK es nterm) (hc : TermSitesOK es cterm)
+    (hd : ∀ j : Int, (offered (varInternalRules internal) j).Nodup)
+    (hdn : (termOffered (varTermRules es nterm) 0).Nodup)
+    (hdc : (termOffered (varTermRules es cterm) ((a.seq.length : Int) - 1)).Nodup) :
+    (applyVariable a internal maxMods nterm cterm .append es).Nodup :=
+  variable_no_form_twice a internal maxMods nterm cterm .append es hi hn hc
+    (fun j _ => siteOK_append_of_nodup a internal hi j (hd j)) hdn hdc
+
+/-- C13 (variable, mode overwrite), no form twice: as for append, and no offered group equals the mods already on a
+residue it is offered to. -/
+theorem variable_overwrite_no_form_twice (a : Annotation) (internal : Option (List (Rule VarIn))) (maxMods : Int)
+    (nterm cterm : TermIn VarIn) (es : List Int)
+    (hi : SitesOK (internal.getD [])) (hn : TermSitesOK es nterm) (hc : TermSitesOK es cterm)
+    (hd : ∀ j : Int, (offered (varInternalRules internal) j).Nodup)
+    (hne : ∀ (j : Int) o, modsAt a j = some o → o ∉ offered (varInternalRules internal) j)
+    (hdn : (termOffered (varTermRules es nterm) 0).Nodup)
+    (hdc : (termOffered (varTermRules es cterm) ((a.seq.length : Int) - 1)).Nodup) :
+    (applyVariable a internal maxMods nterm cterm .overwrite es).Nodup :=
+  variable_no_form_twice a internal maxMods nterm cterm .overwrite es hi hn hc
+    (fun j _ => siteOK_overwrite_of_nodup a internal j (hd j) (hne j)) hdn hdc
+
+/-- non-vacuity for the two modes: `apply_variable_mods('P[1]EP', {'P': [['a'], ['b']]}, 1, nterm_mods='A', mode=…)` -/
+example :
+    let a : Annotation := { seq := "PEP".toList, internal := some [(0, [⟨.int 1, 1⟩])] }
+    let internal : Option (List (Rule VarIn)) :=
+      some [([0, 2], .nested [.many [⟨.str "a".toList, 1⟩], .many [⟨.str "b".toList, 1⟩]])]
+    (applyVariable a internal 1 (.direct (.one ⟨.str "A".toList, 1⟩)) .none .append [-1, 0, 1, 2]).length = 18 ∧
+    (applyVariable a internal 1 (.direct (.one ⟨.str "A".toList, 1⟩)) .none .overwrite [-1, 0, 1, 2]).Nodup ∧
+    (∀ j ∈ [0, 1, 2], (offered (varInternalRules internal) j).Nodup) := by decide
 
 /-! ### the code before repair c2a4986 -/
 
